@@ -215,9 +215,11 @@ def oracle(t, op, res):
                 bad.append(f"filled lag {lg} is not on the row's grid {first}+k*{res_m}")
             if compatible and not lg < last:
                 bad.append(f"filled lag {lg} is not inside a gap (row lags {[lag_of(x, 'month') for x in row]})")
-            # carried forward from the nearest earlier cell of the RESULT row, or all None
-            orow = sorted([x for x in out if x.metadata == c.metadata and (x.period_start, x.period_end) == (c.period_start, c.period_end)
-                           and x.evaluation_date < c.evaluation_date], key=lambda x: x.evaluation_date.toordinal())
+            # carried forward from the RESULT row's cell one resolution step earlier (the grid predecessor;
+            # with a resolution coarser than the observed spacing other observed cells may lie in between),
+            # or all None
+            orow = [x for x in out if x.metadata == c.metadata and (x.period_start, x.period_end) == (c.period_start, c.period_end)
+                    and lag_of(x, "month") == lg - res_m]
             src = orow[-1] if orow else None
             if src is None:
                 bad.append("filled cell has no earlier cell")
@@ -292,9 +294,25 @@ def expected_exception(t, op):
             return KeyError if any(f not in firsts[order[0]].values for f in op["statics"]) else TypeError
         if any(f not in c.values for c in firsts.values() for f in op["statics"]):
             return KeyError
+    if k in ("rt", "rd") and cells and type(cells[0]).__name__ == "IncrementalCell" and not convertible(cells):
+        return TriangleError  # an incomplete incremental triangle cannot be put on a cumulative basis
     if k == "rd" and op["hist"]:
         return ValueError
     return None
+
+
+def convertible(cells):
+    """to_cumulative's precondition: every (slice, period) chain starts the day before the period and
+    is unbroken, with one field set."""
+    metas, rws = rows(cells)
+    for (_, a, _), row in rws.items():
+        row = sorted(row, key=lambda c: (c.evaluation_date.toordinal(), c.prev_evaluation_date.toordinal()))
+        if row[0].prev_evaluation_date + ONE != a:
+            return False
+        for p, n in zip(row[:-1], row[1:]):
+            if n.prev_evaluation_date != p.evaluation_date or set(n.values) != set(p.values):
+                return False
+    return True
 
 
 # ------------------------------------------------------------------ case generation
@@ -317,6 +335,25 @@ def gen_case(rng, g, i):
     cells = list(t.cells)
     if not month_aligned(cells):
         return None
+    if info["n_slices"] >= 2 and kind in ("rt", "rd") and rng.random() < 0.6:
+        # per-slice ragged: the same period has a different latest observation in each slice
+        # (dropping a suffix of a row keeps an incremental chain valid)
+        from bermuda import Triangle
+
+        groups = {}
+        for c in cells:
+            groups.setdefault((id(c.metadata), c.period_start, c.period_end), []).append(c)
+        first_meta = id(cells[0].metadata)
+        kept = []
+        for (m, _, _), row in groups.items():
+            row.sort(key=lambda c: c.evaluation_date.toordinal())
+            keep = len(row) if m == first_meta and rng.random() < 0.5 else rng.randint(1, len(row))
+            kept += row[:keep]
+        with warnings.catch_warnings():
+            warnings.simplefilter("ignore")
+            t = Triangle(kept)
+        cells = list(t.cells)
+        shape = shape + "+slice_ragged"
     evs = sorted({c.evaluation_date for c in cells})
     lags = sorted({mid(c.evaluation_date) - mid(c.period_end) for c in cells})
     if kind == "rt":
@@ -341,6 +378,10 @@ def gen_case(rng, g, i):
         choices = [None, None, er or 1]
         if er:
             choices += [d for d in (1, 2, 3, 6) if er % d == 0]
+        # explicit resolutions that do NOT match the observed grid: coarser multiples and non-dividing ones
+        # (observed cells off the requested grid must survive; placement beyond the last observation for a
+        # non-dividing resolution is the separately classified known finding K1)
+        choices += [(er or 1) * 2, (er or 1) * 3, 2, 3, 4, 5, 6, 12]
         op = {"kind": "ff", "res": rng.choice(choices), "none": rng.random() < 0.4}
     else:
         er = eval_res(cells)
@@ -387,6 +428,27 @@ def directed():
                                        values={"paid_loss": 2.5}))
             prev = e
     out.append(("upper-left-incremental", Triangle(inc), {"kind": "rt", "unit": "month", "lags": None}))
+    # two slices whose common periods end at DIFFERENT observations (slice A lags 0,3,6 ; slice B lags 0,3):
+    # the first predicted increment of each (slice, period) must link to the edge of the SAME slice
+    two = []
+    for mi, m in enumerate([Metadata(details={"s": 1}), Metadata(details={"s": 2})]):
+        for ps, pe, evs in [(D(2020, 1, 1), D(2020, 3, 31), [D(2020, 3, 31), D(2020, 6, 30), D(2020, 9, 30)]),
+                            (D(2020, 4, 1), D(2020, 6, 30), [D(2020, 6, 30), D(2020, 9, 30)])]:
+            prev = ps - ONE
+            for e in (evs if mi == 0 else evs[:-1]):
+                two.append(IncrementalCell(period_start=ps, period_end=pe, prev_evaluation_date=prev, evaluation_date=e,
+                                           values={"paid_loss": 1.5}, metadata=m))
+                prev = e
+    out.append(("slice-ragged-incremental", Triangle(two), {"kind": "rt", "unit": "month", "lags": [0, 3, 6, 9, 12]}))
+    out.append(("slice-ragged-incremental-default", Triangle(two), {"kind": "rt", "unit": "month", "lags": None}))
+    out.append(("slice-ragged-incremental-diag", Triangle(two), {"kind": "rd", "dates": ["2020-12-31", "2021-03-31"], "hist": False}))
+    out.append(("slice-ragged-incremental-day", Triangle(two), {"kind": "rt", "unit": "day", "lags": [400, 500]}))
+    # observed lags off the requested (coarser) grid must survive a fill
+    for nm, lags in [("fill-coarse-0-3-9-10-11-12", [0, 3, 9, 10, 11, 12]), ("fill-coarse-monthly-0-1-2-3-6", [0, 1, 2, 3, 6])]:
+        cs = [CumulativeCell(period_start=D(2020, 1, 1), period_end=D(2020, 1, 31), evaluation_date=mend(600 + k),
+                             values={"paid_loss": 10 + k}) for k in lags]
+        out.append((nm, Triangle(cs), {"kind": "ff", "res": 3, "none": False}))
+        out.append((nm + "-none", Triangle(cs), {"kind": "ff", "res": 3, "none": True}))
     out.append(("upper-left-incremental-diag", Triangle(inc), {"kind": "rd", "dates": ["2020-12-31", "2021-03-31", "2020-06-30"], "hist": False}))
     return out
 
@@ -528,16 +590,16 @@ def run(ctx):
         "implementation's output, independent Python oracles check the property text. Non-trivial = distinct "
         "(triangle, parameters).")
     ctx.assumptions += [
-        "month arithmetic is Calendar.addm / lag_months (the integer behaviour of add_months / dev_lag_months on "
-        "month-aligned dates, proved for the generated date functions by C12); month-unit theorems are stated for "
-        "month ids 0..1571",
+        "month arithmetic is Calendar.addm / lag_months: equal to the source's float-based add_months / dev_lag_months "
+        "only where the C12 bridge theorems say so (month-aligned dates, results in 1970-2100; F10 before 1970); the "
+        "month-unit theorems themselves hold for every date of year >= 1 (Proofs/CalendarP.v, unbounded, axiom-free)",
         "result order: Metadata.__lt__ belongs to C01; the model emits slices in the order of the input's distinct "
         "metadata, which is the sorted order for a sorted input",
         "to_incremental + _fix_prev_evaluation_date are modelled by the chain they produce; the tie runs the real pipeline",
         "make_right_diagonal(include_historic=True) is outside the placement clause (it is asked to re-create "
         "historic diagonals); it is tied to the model only",
     ]
-    ctx.audit_tree(["Model/Extend.v", "Proofs/Extend.v", "Proofs/AccessorsCal.v", "Props/C15.v",
+    ctx.audit_tree(["Model/Extend.v", "Proofs/Extend.v", "Proofs/AccessorsCal.v", "Proofs/CalendarP.v", "Props/C15.v",
                     "GenProps/C15_Tie.v", "GenProps/C15_Gen.v"])
     ctx.prove_static("Props/C15.v", timeout=900)
     translate_and_prove(ctx)
